@@ -23,10 +23,42 @@ def expected_names(name_sets) -> tuple:
     return tuple(names)
 
 
+def body_special(ctx: H.BaseCtx):
+    """Native only: complex / tiny-imaginary / signed-zero / non-finite coefficient content.  Alignment performs no arithmetic:
+    every output must hold, term by term, exactly the (broadcast) coefficient arrays of its input; terms it adds must be zero."""
+    import numpoly
+    from .. import special as SP
+
+    if ctx.symbolic:
+        return
+    q0, q1, q2 = numpoly.variable(3)
+    for label, p in SP.zoo((2,)):
+        for pname, partner in (("2x1 real polynomial", numpoly.polynomial([[q2], [2 * q0 + 1]])), ("python int", 3), ("(2,) float array", numpy.array([0.5, -1.0]))):
+            for fn in FUNCS:
+                try:
+                    outs = getattr(numpoly, fn)(SP.zoo((2,), only=label)[0][1], partner)
+                except Exception as e:
+                    ctx.unexpected_exception(e, "%s on %s" % (fn, label))
+                    continue
+                o = outs[0]
+                shape = numpy.broadcast_shapes(p.shape, getattr(partner, "shape", ())) if fn in ("align_polynomials", "align_shape") else p.shape
+                pad = len(o.names) - len(p.names)
+                with numpy.errstate(all="ignore"):
+                    want = {}
+                    for m, c in SP.terms(p).items():
+                        key = [0] * len(o.names)
+                        for nm, e in zip(p.names, m):
+                            key[list(o.names).index(nm)] = e
+                        want[tuple(key)] = numpy.broadcast_to(c, shape)
+                SP.expect_terms(ctx, o, want, "%s(%s, %s)[0]" % (fn, label, pname))
+
+
 def body(ctx: H.BaseCtx):
     import numpoly
 
     case = ctx.case
+    if case.get("op") == "special":
+        return body_special(ctx)
     fn = getattr(numpoly, case["fn"])
     ops = [ctx.build(s) for s in case["operands"]]
     mops = [ctx.model(s) for s in case["operands"]]
@@ -178,6 +210,16 @@ def gen_cases(tier: str, seed: int) -> List[Dict]:
             ops_ = [{"kind": "scalar", "shape": [], "slots": [v]} for v in lits] + [S.make_poly_spec("a", ("q0",), [[0], [1]], (), rng, 2, mode="raw")]
             n += 1
             cases.append({"id": "%s-%03d-%s-pynum" % (PROP, n, fn), "op": fn, "fn": fn, "operands": ops_, "limits": lim})
+    # operands that declare many indeterminates and use few (wide exponent rows), alone and against narrow ones
+    for fn in FUNCS:
+        for nn, ua, ub in ((9, [0, 8], [1, 8]), (70, [0, 5], [1, 69]), (33, [0, 32], [32])):
+            a = S.many_names_spec("a", nn, ua, rng.choice([(), (2,)]), rng, 2, maxexp=3)
+            b = S.many_names_spec("b", nn, ub, (), rng, 2, maxexp=255)
+            c_ = S.make_poly_spec("c", ("q1",), [[0], [2]], (), rng, 1, mode="raw")
+            n += 1
+            cases.append({"id": "%s-%03d-%s-manynames%d" % (PROP, n, fn, nn), "op": fn, "fn": fn, "operands": [a, b, c_], "limits": lim})
+    cases.append({"id": "%s-%03d-special-content" % (PROP, n + 1), "op": "special", "fn": "special", "operands": [], "limits": lim})
+    n += 1
     # already aligned arguments (internal aliasing possible)
     for fn in FUNCS:
         names = ("q0", "q1")
